@@ -20,7 +20,19 @@ RULE = ("random DirectedHypergraph instances (3-9 nodes, 1-12 proposed hyperedge
         "2-d signature accumulation, default bound), the degree calls under 8 option combinations (order, size, both = refused, "
         "none; unknown nodes), degree sums against side sizes (handshake), weighted cells and anti-diagonals of the signature, and "
         "the reversed hypergraph built by the library (degrees exchanged, signature transposed, exact / weak unchanged); "
-        "a case is distinct by its final canonical hyperedge list and node list; non-trivial when exact, "
+        "round f (size / magnitude): before the small instances three LARGE ones per quick run (15 in thorough, every third up to "
+        "200 000 hyperedges), determined by a sub-seed - a star whose hub is in more than 2**16 hyperedges of one shape (70 000 "
+        "nodes when the shape is (1,1)), a hypergraph of 4-7 shapes with a hub on the opposite side in more than 2**16 hyperedges, a "
+        "directed graph with more than 2**16 arcs on 300-620 nodes plus other shapes; the counts of the other shapes / of the hub's "
+        "other degree are drawn from 127..129, 255..257, 2047..2049, 32767..32769, 65535..65537; the main shape GROWS through "
+        "these counts (constructor / add_edges / add_edge, node order inside a side arbitrary, fresh label objects, four label "
+        "universes, a quarter weighted with weights up to 2**31) with signature (default, largest, random bound) and hub "
+        "degrees checked at every stage, then 200 present hyperedges re-added in another node order, the full check "
+        "(listings, both degree sequences under 5-9 filters + single calls, handshake sums, the three reciprocity tables for "
+        "2-3 bounds incl. a bound of 64 / 257 / 300, [0,1], order, exact float quotient, signature cells / sum / weighted sum) "
+        "against numpy references on node ranks, and for about half of them removal back down through 65536 and 65535 and a copy; "
+        "the Lean model is not run at that size, every fourth small instance cross-checks the numpy reference against the plain "
+        "oracle; a case is distinct by its final canonical hyperedge list and node list (large: by its sub-seed); non-trivial when exact, "
         "strong and weak reciprocity are pairwise different for some size")
 ASSUMPTIONS = ["hyperedges have disjoint non-empty source and target sets (the property's quantifier)",
                "labels of one hypergraph are mutually comparable and pairwise unequal (1 / 1.0 / True never together, no "
@@ -925,6 +937,539 @@ def ext_reverse(ctx, case, h, E, nodes, rank, lines, expect):
             ctx.violation(case, f"{wh} sequence of the reversed hypergraph does not list every node once")
 
 
+# ---------------------------------------------------------------------------------------------------------------
+# round f: SIZE / MAGNITUDE as a dimension. A few large instances per run (one shape with more than 2**16 hyperedges, a hub
+# whose degree passes 2**16, the other shapes / the hub's other degree with counts ON the boundaries of narrow number types),
+# grown through the boundaries, judged by the property's own words with vectorised references on node ranks (numpy, int64 /
+# Python ints only). The Lean model does not run at that size (its theorems are about every size).
+
+COUNTS_AT = [127, 128, 129, 255, 256, 257, 2047, 2048, 2049, 32767, 32768, 32769, 65535, 65536, 65537]
+#            int8           uint8          float16 (2**11)    int16                uint16
+L_SHAPES = [(1, 1), (1, 2), (2, 1), (2, 2), (1, 3), (3, 1), (2, 3), (3, 2), (1, 4), (4, 1), (3, 3), (2, 4), (1, 5), (5, 1)]
+L_WEIGHTS = [1, 2, 65536, 0.5, 2 ** 31, 70000, 0.25]
+
+
+def L_labels(kind, n):
+    if kind == "small":
+        return list(range(n))
+    if kind == "sparse":
+        return [x * 1009 + 300 for x in range(n)]
+    if kind == "signed":
+        return [x - n // 2 for x in range(n)]
+    return ["n%d" % x for x in range(n)]
+
+
+def L_rows(nr, N, a, b, c, hub, hubside, seen):
+    """up to c hyperedges of shape (a, b) on the ranks 0..N-1 that are not in `seen` (a set of row tuples, updated): an
+    int64 array with a + b columns, each side sorted, all nodes of a row different; with a hub the hub rank is in every
+    source (hubside 0) or target (hubside 1) set"""
+    import numpy as np
+    out, have = [], 0
+    if hub is not None and a + b == 2 and c > N - 1:
+        hub = None
+    for _ in range(60):
+        if have >= c:
+            break
+        k = int((c - have) * 1.25) + 32
+        if hub is not None and a + b == 2:
+            M = np.empty((min(k, N), 2), dtype=np.int64)
+            M[:, hubside] = hub
+            M[:, 1 - hubside] = nr.permutation(N)[: len(M)]
+        else:
+            M = nr.randint(0, N, size=(k, a + b)).astype(np.int64)
+            if hub is not None:
+                M[:, 0 if hubside == 0 else a] = hub
+        M = M[(np.diff(np.sort(M, axis=1), axis=1) != 0).all(axis=1)]
+        M = np.hstack([np.sort(M[:, :a], axis=1), np.sort(M[:, a:], axis=1)])
+        for row in M.tolist():
+            t = (a,) + tuple(row)
+            if t not in seen and have < c:
+                seen.add(t)
+                out.append(row)
+                have += 1
+    return np.array(out, dtype=np.int64).reshape(len(out), a + b)
+
+
+def L_plan(sub, family, huge, hubside=None, variant=None):
+    """the large instance of sub-seed `sub`: labels, blocks of hyperedges (shape, rows, check points), hubs"""
+    import random
+    import numpy as np
+    rng, nr = random.Random(sub), np.random.RandomState(sub % (2 ** 32))
+    top = rng.choice([65537 + rng.randint(0, 2500), 70001 + rng.randint(0, 9000)])
+    if huge:
+        top = rng.choice([top, 131071 + rng.randint(0, 3), 140000 + rng.randint(0, 60000)])
+    seen, blocks, hubs = set(), [], []
+    grow = lambda c: [x for x in COUNTS_AT if x < c and rng.random() < 0.8] + [c]
+    if family == "star":
+        # one hub in more than 2**16 hyperedges of one shape; the hub's degree on the other side sits on a boundary
+        extra_nodes = rng.randint(3, 60)
+        hs = rng.randint(0, 1)
+        hs = hs if hubside is None else hubside
+        # (strong_reciprocity copies the set of nodes reached from a source for every hyperedge of that source: quadratic in
+        # the number of DIFFERENT nodes a hub reaches - the hub of 2**16 arcs is their target, a hub that is a source reaches
+        # its > 2**16 hyperedges' targets among a few hundred nodes)
+        shape = rng.choice([(1, 1), (1, 1), (1, 2), (2, 1)]) if hs == 1 else rng.choice([(1, 2), (2, 1), (1, 3)])
+        N = top + extra_nodes if shape == (1, 1) else max(rng.randint(520, 800), int((4.4 * top) ** 0.5) + 3)
+        hub = rng.randrange(N)
+        hubs.append(hub)
+        main = L_rows(nr, N, shape[0], shape[1], top, hub, hs, seen)
+        blocks.append([shape, main, grow(len(main)), "main"])
+        back = rng.choice(COUNTS_AT[:6] if shape == (1, 1) else COUNTS_AT[:12])
+        sh2 = (shape[1], shape[0])
+        # reversed hyperedges of the main block first (exact reciprocity), the rest fresh
+        take = main[nr.permutation(len(main))[: rng.randint(0, back)]]
+        rev = np.hstack([take[:, shape[0]:], take[:, :shape[0]]])
+        for row in rev.tolist():
+            seen.add((sh2[0],) + tuple(row))
+        fill = L_rows(nr, N, sh2[0], sh2[1], back - len(rev), hub, 1 - hs, seen)
+        blocks.append([sh2, np.vstack([rev, fill]), [len(rev) + len(fill)], "back"])
+        for _ in range(rng.randint(1, 3)):
+            a, b = rng.choice(L_SHAPES[1:8])
+            c = rng.choice(COUNTS_AT[:9])
+            side = rng.randint(0, 1)
+            blocks.append([(a, b), L_rows(nr, min(N, 3000), a, b, c, hub if rng.random() < 0.6 else None, side, seen), None, "side"])
+    else:
+        # several shapes; one holds more than 2**16 hyperedges, the others sit on boundaries; total kept moderate
+        N = rng.randint(300, 620)
+        shapes = rng.sample(L_SHAPES, rng.randint(3, 6))
+        mainshape = rng.choice([(1, 1), (1, 2), (2, 1), (2, 2), (1, 3), shapes[0]])
+        if variant == "hub":          # the hub of this instance is in more than 2**16 hyperedges, on the requested side
+            mainshape = rng.choice([(1, 2), (2, 1), (2, 2), (1, 3), (3, 1)])
+        elif variant == "pairs":      # a directed graph with more than 2**16 arcs
+            mainshape = (1, 1)
+        if mainshape in shapes:
+            shapes.remove(mainshape)
+        mainhub = (rng.random() < 0.35 or variant == "hub") and mainshape != (1, 1)
+        mainside = rng.randint(0, 1)
+        mainside = mainside if hubside is None or variant != "hub" else hubside
+        if mainshape == (1, 1):
+            N = max(N, int((2.2 * top) ** 0.5) + 2)
+        elif mainhub and sum(mainshape) == 3:
+            N = max(N, int((4.4 * top) ** 0.5) + 3)
+        hub = rng.randrange(N)
+        hubs.append(hub)
+        budget = (36000 if variant != 'hub' and rng.random() < 0.5 else 6000) if not huge else 200000
+        blocks.append([mainshape, L_rows(nr, N, mainshape[0], mainshape[1], top, hub if mainhub else None, mainside, seen),
+                       None, "main"])
+        blocks[0][2] = grow(len(blocks[0][1]))
+        for (a, b) in shapes:
+            c = rng.choice([x for x in COUNTS_AT if x <= max(budget, 300)] or COUNTS_AT[:3])
+            if (a, b) == (1, 1):
+                c = min(c, N * (N - 1) // 3)
+            budget -= c
+            rows = np.zeros((0, a + b), dtype=np.int64)
+            src = [blk for blk in blocks if blk[0] == (b, a)]
+            if src and rng.random() < 0.7:       # partly the reverses of the block of the transposed shape
+                base = src[0][1]
+                take = base[nr.permutation(len(base))[: rng.randint(0, min(c, len(base)))]]
+                rows = np.hstack([take[:, b:], take[:, :b]])
+                keep = [i for i, row in enumerate(rows.tolist()) if ((a,) + tuple(row)) not in seen]
+                rows = rows[keep]
+                for row in rows.tolist():
+                    seen.add((a,) + tuple(row))
+            fill = L_rows(nr, N, a, b, c - len(rows), hub if rng.random() < 0.3 else None, rng.randint(0, 1), seen)
+            blocks.append([(a, b), np.vstack([rows, fill]), None, "side"])
+    for blk in blocks:
+        if blk[2] is None:
+            blk[2] = [len(blk[1])]
+        blk[2] = sorted({x for x in blk[2] if 0 < x <= len(blk[1])} | ({len(blk[1])} if len(blk[1]) else set()))
+    blocks = [blk for blk in blocks if len(blk[1])]
+    order = list(range(len(blocks)))
+    if rng.random() < 0.5:
+        rng.shuffle(order)
+    blocks = [blocks[i] for i in order]
+    kind = rng.choice(["small", "sparse", "signed", "str"])
+    iso = rng.randint(0, 3)
+    return rng, nr, kind, N + iso, [N + i for i in range(iso)], blocks, hubs
+
+
+class LRef:
+    """what the calls made so far leave behind: per shape (a, b) the list of row blocks (ranks)"""
+    def __init__(self, N):
+        self.N, self.parts, self.nodes = N, {}, set()
+
+    def add(self, a, b, rows):
+        self.parts.setdefault((a, b), []).append(rows)
+        self.nodes.update(rows.ravel().tolist())
+
+    def rows(self, a, b):
+        import numpy as np
+        ps = self.parts.get((a, b), [])
+        if len(ps) > 1:
+            self.parts[(a, b)] = ps = [np.vstack(ps)]
+        return ps[0] if ps else np.zeros((0, a + b), dtype=np.int64)
+
+    def drop_tail(self, a, b, k):
+        self.parts[(a, b)] = [self.rows(a, b)[: -k]]
+
+    def shapes(self):
+        return {sh: self.rows(*sh) for sh in list(self.parts) if len(self.rows(*sh))}
+
+
+def L_tables(shapes, N, m):
+    """the three reciprocities of the property's words for the bound m, counted on rank arrays: {name: {k: (c, tot)}}.
+    A pair (t, s) is 'present' when some hyperedge within the bound has t among its sources and s among its targets;
+    strong: every source s of e has a target t of e with (t, s) present; weak: some such pair; exact: the row (T, S) of
+    the transposed shape is a hyperedge within the bound."""
+    import numpy as np
+    B = {sh: R for sh, R in shapes.items() if 2 <= sh[0] + sh[1] <= m and len(R)}
+    keys = [np.zeros(0, dtype=np.int64)]
+    for (a, b), R in B.items():
+        for i in range(a):
+            for j in range(b):
+                keys.append(R[:, i] * N + R[:, a + j])
+    P = np.unique(np.concatenate(keys))
+    cnt = {name: {k: [0, 0] for k in range(2, m + 1)} for name in ("exact", "strong", "weak")}
+    for (a, b), R in B.items():
+        S, T = R[:, :a], R[:, a:]
+        hit = np.isin(T[:, :, None] * N + S[:, None, :], P)          # [row, j, i]: target j -> source i is present
+        back = B.get((b, a))
+        if back is None:
+            ex = 0
+        else:
+            have = set(map(tuple, back.tolist()))
+            ex = sum(1 for row in np.hstack([T, S]).tolist() if tuple(row) in have)
+        for name, c in (("exact", ex), ("strong", int(hit.any(axis=1).all(axis=1).sum())), ("weak", int(hit.any(axis=(1, 2)).sum()))):
+            cnt[name][a + b][0] += c
+            cnt[name][a + b][1] += len(R)
+    return cnt
+
+
+def L_selftest(E, rank):
+    """the vectorised reference used on the large instances agrees with the plain reading of the property's words"""
+    shapes = L_arrays(E, rank)
+    for m in (2, 3, 5, 7):
+        cnt, orc = L_tables(shapes, len(rank), m), oracle_tables(E, m)
+        for name in cnt:
+            for k, (c, t) in cnt[name].items():
+                if (Fraction(c, t) if t else 0) != orc[name][k]:
+                    raise AssertionError(f"harness self-test: vectorised {name} reference {c}/{t} != {orc[name][k]} for size {k}, bound {m}, {E}")
+
+
+def L_arrays(E, rank):
+    """get_edges() output as rank arrays per shape"""
+    import numpy as np
+    acc = {}
+    for e in E:
+        s, t = sorted(rank[x] for x in e[0]), sorted(rank[x] for x in e[1])
+        acc.setdefault((len(s), len(t)), []).append(s + t)
+    return {sh: np.array(rows, dtype=np.int64) for sh, rows in acc.items()}
+
+
+def L_same_rows(A, B):
+    import numpy as np
+    if A.shape != B.shape:
+        return False
+    if not len(A):
+        return True
+    return bool(np.array_equal(A[np.lexsort(A.T[::-1])], B[np.lexsort(B.T[::-1])]))
+
+
+def L_light(ctx, case, h, ref, labels, hubs, rng):
+    """signature (explicit bounds and the default bound) and the hubs' degrees against the counts of the calls made"""
+    from hypergraphx.measures.directed import hyperedge_signature_vector, in_degree, out_degree
+    import numpy as np
+    shapes = ref.shapes()
+    if not shapes:
+        return
+    n_by = {sh: len(R) for sh, R in shapes.items()}
+    mmax = max(a + b for (a, b) in n_by)
+    try:
+        nE = len(h.get_edges())
+    except Exception as ex:
+        ctx.violation(case, f"get_edges() raised {type(ex).__name__}: {ex}")
+        return
+    if nE != sum(n_by.values()):
+        ctx.violation(case, f"get_edges() lists {nE} hyperedges, the calls made so far leave {sum(n_by.values())}")
+        return
+    asks = [(), (mmax,), (rng.randint(2, 7),)]
+    if nE > 20000:
+        asks.pop(rng.randrange(3))
+    for args in asks:
+        mm = args[0] if args else mmax
+        try:
+            sig = hyperedge_signature_vector(h, *args)
+            cells = [x for x in np.asarray(sig).tolist()]
+        except Exception as ex:
+            ctx.violation({**case, "m": mm}, f"hyperedge_signature_vector{args} raised {type(ex).__name__}: {ex}")
+            continue
+        want = [0] * ((mm - 1) * (mm - 1))
+        for (a, b), c in n_by.items():
+            if a + b <= mm:
+                want[(a - 1) * (mm - 1) + b - 1] = c
+        if len(cells) != len(want) or any(x != w for x, w in zip(cells, want)):
+            bad = [((i // (mm - 1) + 1, i % (mm - 1) + 1), x, w) for i, (x, w) in enumerate(zip(cells, want)) if x != w][:3]
+            ctx.violation({**case, "m": mm, "default_bound": not args},
+                          f"signature with bound {mm}: (shape, cell, number of hyperedges of that shape) differ at {bad}"
+                          if len(cells) == len(want) else f"signature with bound {mm} has {len(cells)} cells")
+        elif sum(int(x) for x in cells) != sum(c for (a, b), c in n_by.items() if a + b <= mm):
+            ctx.violation({**case, "m": mm}, "signature cells do not sum to the number of hyperedges within the bound")
+    k = rng.choice(sorted({a + b for (a, b) in n_by}))
+    for hub in hubs:
+        if hub not in ref.nodes:
+            continue
+        for kw, size in (({}, None), ({"size": k}, k), ({"order": k - 1}, k)):
+            for f, side in ((in_degree, 0), (out_degree, 1)):
+                want = sum(int((R[:, :a] == hub).any(axis=1).sum()) if side == 0 else int((R[:, a:] == hub).any(axis=1).sum())
+                           for (a, b), R in shapes.items() if size is None or a + b == size)
+                try:
+                    d = f(h, fresh(labels[hub]), **kw)
+                except Exception as ex:
+                    d = f"{type(ex).__name__}: {ex}"
+                if isinstance(d, bool) or not isinstance(d, (int, np.integer)) or int(d) != want or d != want:
+                    ctx.violation({**case, "node": labels[hub], "filter": kw},
+                                  f"{f.__name__}({labels[hub]!r}, {kw}) = {d!r}, the node is a {'source' if side == 0 else 'target'} "
+                                  f"of {want} such hyperedges")
+
+
+L_FILTERS = [(None, {}), (1, {"size": 1}), (2, {"size": 2}), (3, {"size": 3}), (2, {"order": 1}), (1, {"order": 0})]
+
+
+def L_full(ctx, case, h, ref, labels, rank, hubs, rng):
+    """everything the property says, on the large object; returns non-triviality"""
+    from hypergraphx.measures.directed import (exact_reciprocity, strong_reciprocity, weak_reciprocity, in_degree, out_degree,
+                                               in_degree_sequence, out_degree_sequence, hyperedge_signature_vector)
+    import numpy as np
+    N = ref.N
+    shapes = ref.shapes()
+    try:
+        E, nodes = h.get_edges(), list(h.get_nodes())
+        got = L_arrays(E, rank)
+    except Exception as ex:
+        ctx.violation(case, f"get_edges() / get_nodes() unusable: {type(ex).__name__}: {ex}")
+        return False
+    if sorted(got) != sorted(shapes) or any(not L_same_rows(got[sh], shapes[sh]) for sh in shapes):
+        ctx.violation(case, "get_edges() does not list the hyperedges the calls made so far leave (shape -> number listed: "
+                            f"{ {sh: len(R) for sh, R in got.items()} }, expected { {sh: len(R) for sh, R in shapes.items()} })")
+        return False
+    if len(nodes) != len(ref.nodes) or {rank.get(x) for x in nodes} != ref.nodes:
+        ctx.violation(case, f"get_nodes() lists {len(nodes)} nodes, the calls made so far leave {len(ref.nodes)}")
+        return False
+    sizes = sorted({a + b for (a, b) in shapes})
+    mmax = sizes[-1] if sizes else 2
+    # degrees: definition = occurrences of the node on that side among the hyperedges passing the filter
+    occ = {}
+    for (a, b), R in shapes.items():
+        for side, part in ((0, R[:, :a]), (1, R[:, a:])):
+            v = np.bincount(part.ravel(), minlength=N)
+            occ[(side, a + b)] = occ.get((side, a + b), 0) + v
+    filt = L_FILTERS + [(mmax, {"size": mmax}), (mmax, {"order": mmax - 1}), (7, {"size": 7})]
+    if len(nodes) > 5000 or len(E) > 30000:          # every node is asked: keep the number of passes moderate
+        big = max(shapes, key=lambda sh: len(shapes[sh]))
+        filt = [L_FILTERS[0], (sum(big), {"size": sum(big)}), (sum(big), {"order": sum(big) - 1}), rng.choice(L_FILTERS[1:]),
+                rng.choice(filt[6:])]
+    probe = list(dict.fromkeys([x for x in hubs if x in ref.nodes] + [rank[x] for x in rng.sample(nodes, min(len(nodes), 25))]))
+    for size, kw in filt:
+        for which, seqf, onef, side in (("in", in_degree_sequence, in_degree, 0), ("out", out_degree_sequence, out_degree, 1)):
+            want = sum(occ[(s, k)] for (s, k) in occ if s == side and (size is None or k == size)) + np.zeros(N, dtype=np.int64)
+            try:
+                seq = seqf(h, **kw)
+                ones = {x: onef(h, fresh(labels[x]), **kw) for x in probe}
+            except Exception as ex:
+                ctx.violation({**case, "filter": kw}, f"{which}_degree with filter {kw} raised {type(ex).__name__}: {ex}")
+                continue
+            if len(seq) != len(nodes) or any(x not in seq for x in nodes):
+                ctx.violation({**case, "filter": kw}, f"{which}_degree_sequence does not list every node once")
+                continue
+            bad = [x for x in nodes if seq[x] != int(want[rank[x]])][:1] + [labels[x] for x in probe if ones[x] != int(want[x])][:1]
+            if bad:
+                x = bad[0]
+                ctx.violation({**case, "filter": kw, "node": x},
+                              f"{which}_degree({x!r}, {kw}) = {seq.get(x)} / {ones.get(rank[x], seq.get(x))}, the node is on that side of "
+                              f"{int(want[rank[x]])} hyperedges passing the filter")
+            tot = sum(len(R) * (sh[side]) for sh, R in shapes.items() if size is None or sh[0] + sh[1] == size)
+            try:
+                if sum(seq.values()) != tot:
+                    ctx.violation({**case, "filter": kw}, f"{which}-degrees sum to {sum(seq.values())}, the hyperedges passing the "
+                                                          f"filter have {tot} nodes on that side")
+            except Exception as ex:
+                ctx.violation({**case, "filter": kw}, f"{which}_degree_sequence values unusable: {type(ex).__name__}: {ex}")
+    # reciprocities
+    nontrivial = False
+    # bounds: the largest size, one below / far below it, and a bound far beyond every size (a table of some hundred sizes)
+    far = rng.choice([64, 257, 300])
+    bounds = list(dict.fromkeys([mmax, 2, max(2, mmax - 1), 7, rng.randint(2, 7)]))
+    bounds = ([mmax, rng.choice(bounds[1:])] if len(E) > 30000 else bounds) + [far]
+    for m in bounds:
+        cnt = L_tables(shapes, N, m)
+        got = {}
+        within = sum(len(R) for sh, R in shapes.items() if sh[0] + sh[1] <= m)
+        for name, f in (("exact", exact_reciprocity), ("strong", strong_reciprocity), ("weak", weak_reciprocity)):
+            if name == "strong" and m != bounds[0] and within > 30000:
+                continue            # the slowest routine: on the large object once, with the largest bound
+            try:
+                tab = f(h, m)
+                if sorted(tab) != list(range(2, m + 1)):
+                    ctx.violation({**case, "m": m}, f"{name}_reciprocity keys {sorted(tab)} != sizes 2..{m}")
+                    continue
+            except Exception as ex:
+                ctx.violation({**case, "m": m}, f"{name}_reciprocity raised {type(ex).__name__}: {ex}")
+                continue
+            got[name] = tab
+            for k in range(2, m + 1):
+                c, t = cnt[name][k]
+                v = tab[k]
+                if not (0 <= v <= 1):
+                    ctx.violation({**case, "m": m, "size": k}, f"{name}_reciprocity[{k}] = {v} outside [0,1]")
+                elif float(v) != (float(Fraction(c, t)) if t else 0.0):
+                    ctx.violation({**case, "m": m, "size": k},
+                                  f"{name}_reciprocity[{k}] = {v}, by definition {c} of the {t} hyperedges of that size: {Fraction(c, t) if t else 0}")
+        if len(got) == 3:
+            for k in range(2, m + 1):
+                ex, st, wk = got["exact"][k], got["strong"][k], got["weak"][k]
+                if not (ex <= st <= wk):
+                    ctx.violation({**case, "m": m, "size": k}, f"exact <= strong <= weak fails at size {k}: {ex}, {st}, {wk}")
+                if ex < st < wk:
+                    nontrivial = True
+    # the signature once more with all cell identities
+    for mm in dict.fromkeys([mmax, 7, 2, far]):
+        try:
+            sig = hyperedge_signature_vector(h, mm)
+            cells = np.asarray(sig).tolist()
+        except Exception as ex:
+            ctx.violation({**case, "m": mm}, f"hyperedge_signature_vector({mm}) raised {type(ex).__name__}: {ex}")
+            continue
+        w = mm - 1
+        inb = {sh: len(R) for sh, R in shapes.items() if sh[0] + sh[1] <= mm}
+        if len(cells) != w * w:
+            ctx.violation({**case, "m": mm}, f"signature with bound {mm} has {len(cells)} cells")
+            continue
+        if any(cells[(a - 1) * w + b - 1] != inb.get((a, b), 0) or cells[(a - 1) * w + b - 1] != int(cells[(a - 1) * w + b - 1])
+               for a in range(1, mm) for b in range(1, mm)):
+            ctx.violation({**case, "m": mm}, f"signature with bound {mm} = {cells if mm < 9 else [(i, c) for i, c in enumerate(cells) if c]}"
+                                             f", hyperedges per shape {inb}")
+        if sum(int(x) for x in cells) != sum(inb.values()):
+            ctx.violation({**case, "m": mm}, "signature cells do not sum to the number of hyperedges within the bound")
+        if sum((i // w + 1) * int(c) for i, c in enumerate(cells)) != sum(a * c for (a, b), c in inb.items()):
+            ctx.violation({**case, "m": mm}, "signature cells weighted by source size do not give the number of sources")
+    return nontrivial
+
+
+def L_insert(h_box, how, rows, a, labels, weighted, rng):
+    """insert the hyperedges through public calls, every label a fresh object, the nodes of a side in any order"""
+    from hypergraphx import DirectedHypergraph
+    def edge(row):
+        s, t = [fresh(labels[x]) for x in row[:a]], [fresh(labels[x]) for x in row[a:]]
+        if len(s) > 1 and rng.random() < 0.5:
+            s.reverse()
+        if len(t) > 1 and rng.random() < 0.5:
+            t.reverse()
+        return (tuple(s), tuple(t)) if rng.random() < 0.9 else (list(s), list(t))
+    es = [edge(r) for r in rows.tolist()]
+    ws = [rng.choice(L_WEIGHTS) for _ in es] if weighted else None
+    if h_box[0] is None:
+        if how == "ctor":
+            h_box[0] = DirectedHypergraph(edge_list=[(tuple(e[0]), tuple(e[1])) for e in es], weighted=weighted, weights=ws)
+            return
+        h_box[0] = DirectedHypergraph(weighted=weighted)
+    h = h_box[0]
+    if how == "add":
+        for i, e in enumerate(es):
+            if weighted:
+                h.add_edge((tuple(e[0]), tuple(e[1])), weight=ws[i])
+            else:
+                h.add_edge((tuple(e[0]), tuple(e[1])))
+    else:
+        h.add_edges([(tuple(e[0]), tuple(e[1])) for e in es], weights=ws)
+
+
+def large_one(ctx, spec):
+    """one large instance; spec = {"family", "sub", "huge"} determines it completely"""
+    import time as _t
+    t0 = _t.time()
+    family, sub, huge = spec["family"], int(spec["sub"]), bool(spec.get("huge"))
+    rng, nr, kind, N, iso, blocks, hubs = L_plan(sub, family, huge, spec.get("hubside"), spec.get("variant"))
+    labels = L_labels(kind, N)
+    rank = {x: i for i, x in enumerate(labels)}
+    weighted = rng.random() < 0.25
+    case = {"large": spec, "universe": kind, "nodes": N, "weighted": weighted,
+            "blocks": [[list(sh), len(rows), cuts, tag] for sh, rows, cuts, tag in blocks],
+            "hubs": [labels[x] for x in hubs]}
+    ref, box = LRef(N), [None]
+    before = len(ctx.violations)
+    nontrivial = False
+    try:
+        first = True
+        for bi, (sh, rows, cuts, tag) in enumerate(blocks):
+            prev = 0
+            for cut in cuts:
+                how = rng.choice(["ctor", "adds", "add"]) if first else rng.choice(["adds", "add", "adds"])
+                L_insert(box, how, rows[prev:cut], sh[0], labels, weighted, rng)
+                ref.add(sh[0], sh[1], rows[prev:cut])
+                if first:
+                    for x in iso:
+                        box[0].add_node(fresh(labels[x]))
+                        ref.nodes.add(x)
+                first = False
+                prev = cut
+                L_light(ctx, {**case, "stage": [bi, cut]}, box[0], ref, labels, hubs, rng)
+                if len(ctx.violations) > before:
+                    return
+        h = box[0]
+        # hyperedges that are there already, written in another node order, added once more: nothing changes (not weighted)
+        if not weighted:
+            sh, rows = rng.choice([(blk[0], blk[1]) for blk in blocks])
+            again = rows[nr.permutation(len(rows))[:200]]
+            for r in again.tolist():
+                s, t = [fresh(labels[x]) for x in r[:sh[0]]][::-1], [fresh(labels[x]) for x in r[sh[0]:]][::-1]
+                h.add_edge((tuple(s), tuple(t)))
+        nontrivial = L_full(ctx, {**case, "stage": "end"}, h, ref, labels, rank, hubs, rng)
+        if len(ctx.violations) > before:
+            return
+        # back down through the boundary: the newest hyperedges of the main block removed again
+        sh, rows, cuts, tag = [blk for blk in blocks if blk[3] == "main"][0]
+        now = len(ref.rows(*sh))
+        down = [c for c in (65536, 65535) if now - c <= (1300 if tag == 'main' and hubs else 2600) and c < now]
+        if down and ref.rows(*sh)[-1].tolist() == rows[-1].tolist():
+            for c in down:
+                k = len(ref.rows(*sh)) - c
+                tail = ref.rows(*sh)[-k:]
+                es = [(tuple(fresh(labels[x]) for x in r[:sh[0]]), tuple(fresh(labels[x]) for x in r[sh[0]:])) for r in tail.tolist()]
+                if rng.random() < 0.5:
+                    h.remove_edges(es)
+                else:
+                    for e in es:
+                        h.remove_edge(e)
+                ref.drop_tail(sh[0], sh[1], k)
+                L_light(ctx, {**case, "stage": ["down", c]}, h, ref, labels, hubs, rng)
+                if len(ctx.violations) > before:
+                    return
+            if huge or rng.random() < 0.5:
+                h2 = h.copy()
+                L_light(ctx, {**case, "stage": "copy"}, h2, ref, labels, hubs, rng)
+                nontrivial = L_full(ctx, {**case, "stage": "down-end"}, h2 if rng.random() < 0.5 else h, ref, labels, rank, hubs, rng) or nontrivial
+    except Exception as ex:
+        import traceback
+        tb = traceback.extract_tb(ex.__traceback__)[-1]
+        ctx.violation(case, f"a call on the large hypergraph raised {type(ex).__name__}: {ex} ({tb.filename.split('/')[-1]}:{tb.lineno})")
+        return
+    finally:
+        ctx.count("large.seconds", round(_t.time() - t0, 1))
+    ctx.case(repr(("large", family, sub, huge, spec.get("hubside"), spec.get("variant"))), nontrivial, sample=case)
+    ctx.count("large." + family + ("." + spec["variant"] if spec.get("variant") else ""))
+    ctx.count("large.hyperedges", sum(len(b[1]) for b in blocks))
+
+
+def large_stream(ctx):
+    # every run: a hub that is a SOURCE of more than 2**16 hyperedges, a hub that is a TARGET of as many (one of them in a
+    # star, the other in a hypergraph of several shapes), and a directed graph with more than 2**16 arcs
+    k = ctx.scale(3, 15)
+    side = ctx.rng.randint(0, 1)
+    kinds = [("star", None, side), ("mixed", "hub", 1 - side), ("mixed", "pairs", None)]
+    ctx.rng.shuffle(kinds)
+    kinds += [("star", None, None), ("mixed", None, None)]
+    for i in range(k):
+        if ctx.time_left() is not None and ctx.time_left() < ctx.scale(45, 120):
+            ctx.count("large.skipped")
+            break
+        fam, variant, hs = kinds[i % len(kinds)]
+        spec = {"family": fam, "variant": variant, "hubside": hs, "sub": ctx.rng.getrandbits(31),
+                "huge": ctx.tier == "thorough" and i % 3 == 2}
+        large_one(ctx, spec)
+        if ctx.too_many():
+            break
+
+
 def ref_step(R, op, weighted):
     """one call on the reference objects; True = accepted"""
     if op[0] == "copy":
@@ -974,6 +1519,8 @@ def check_one(ctx, drv, kind, labels, extra, edges, iso, route="plain", weighted
         res = observe(ctx, case, H[slot], R[slot], slot, rank, lines, expect, range(2, 8), ALL_FILTERS, True)
         if res is not None:
             E, nodes, nontrivial = res
+            if E and ctx.evaluations % 4 == 0:
+                L_selftest(E, rank)
             ctx.case(repr((sorted(E, key=repr), sorted(nodes, key=repr))), nontrivial, sample=case)
             ctx.count("route." + route)
             ctx.count("universe." + kind)
@@ -1044,6 +1591,9 @@ def check_one(ctx, drv, kind, labels, extra, edges, iso, route="plain", weighted
 
 def run(ctx):
     drv = ctx.driver() if ctx.model_available else None
+    large_stream(ctx)
+    if ctx.too_many():
+        return
     n = ctx.scale(300, 10000)
     for it in range(n):
         kind, labels, extra, edges, iso = gen(ctx.rng, big=it % 100 == 7)
@@ -1061,6 +1611,9 @@ def run(ctx):
 
 
 def replay(ctx, case):
+    if case.get("large"):
+        large_one(ctx, case["large"])
+        return
     drv = ctx.driver() if ctx.model_available else None
     labels = [thaw(x) for x in case["labels"]]
     extra = [thaw(x) for x in case.get("extra", [])]
